@@ -487,6 +487,12 @@ impl GitignoreBuilder {
                 line = &line[..line.len() - 1];
             }
         }
+        // If nothing is left (e.g., the line was just `!` or `/`), then there
+        // is no pattern. As in git, such a line has no effect. (In particular,
+        // a lone `!` must not whitelist everything.)
+        if line.is_empty() {
+            return Ok(self);
+        }
         glob.actual = line.to_string();
         // If there is a literal slash, then this is a glob that must match the
         // entire path name. Otherwise, we should let it match anywhere, so use
